@@ -2,6 +2,11 @@
 
 package art
 
+import (
+	"encoding/binary"
+	"math"
+)
+
 // Scalar specifications of the in-node search primitives (C10a) and the equivalence harnesses that
 // justify substituting them for the SWAR / SIMD routines in tree-level scenarios (DESIGN §2.3).
 
@@ -113,4 +118,54 @@ func hEqInsertPos16() {
 	want := specInsertPosNode16(keys, n, b)
 	vpTrace("got", uint64(got))
 	vpAssert(got == want, "C10 insertPosNode16 equals the scalar scan")
+}
+
+// Lemma: the executor's bit-vector encoding of Go's float comparisons (used on every tree-level path)
+// agrees with the solver's floating-point theory for every pair of bit patterns.
+func init() {
+	vpRegister("hFpLemma32", hFpLemma32)
+	vpRegister("hFpLemma64", hFpLemma64)
+}
+
+func hFpLemma32() {
+	a, b := vpU32(), vpU32()
+	x, y := math.Float32frombits(a), math.Float32frombits(b)
+	vpAssert((x < y) == vpFpLt32(a, b), "float32 < : bit-vector encoding equals the FP theory")
+	vpAssert((x == y) == vpFpEq32(a, b), "float32 == : bit-vector encoding equals the FP theory")
+	vpAssert((x != x) == vpFpIsNaN32(a), "float32 NaN test: bit-vector encoding equals the FP theory")
+	vpAssert((x <= y) == vpOr(vpFpLt32(a, b), vpFpEq32(a, b)), "float32 <= : bit-vector encoding equals the FP theory")
+}
+
+func hFpLemma64() {
+	a, b := vpU64(), vpU64()
+	x, y := math.Float64frombits(a), math.Float64frombits(b)
+	vpAssert((x < y) == vpFpLt64(a, b), "float64 < : bit-vector encoding equals the FP theory")
+	vpAssert((x == y) == vpFpEq64(a, b), "float64 == : bit-vector encoding equals the FP theory")
+	vpAssert((x != x) == vpFpIsNaN64(a), "float64 NaN test: bit-vector encoding equals the FP theory")
+	vpAssert((x <= y) == vpOr(vpFpLt64(a, b), vpFpEq64(a, b)), "float64 <= : bit-vector encoding equals the FP theory")
+}
+
+// Lemma: the executor's summaries of encoding/binary.BigEndian agree with the shift-and-or definition.
+func init() { vpRegister("hBigEndianLemma", hBigEndianLemma) }
+
+func hBigEndianLemma() {
+	b := vpBytes(8)
+	vpAssert(binary.BigEndian.Uint16(b) == uint16(b[1])|uint16(b[0])<<8, "BigEndian.Uint16 summary")
+	vpAssert(binary.BigEndian.Uint32(b) == uint32(b[3])|uint32(b[2])<<8|uint32(b[1])<<16|uint32(b[0])<<24, "BigEndian.Uint32 summary")
+	vpAssert(binary.BigEndian.Uint64(b) == uint64(b[7])|uint64(b[6])<<8|uint64(b[5])<<16|uint64(b[4])<<24|
+		uint64(b[3])<<32|uint64(b[2])<<40|uint64(b[1])<<48|uint64(b[0])<<56, "BigEndian.Uint64 summary")
+	x := vpU64()
+	o := make([]byte, 8)
+	binary.BigEndian.PutUint64(o, x)
+	ok := true
+	for i := 0; i < 8; i++ {
+		ok = vpAnd(ok, o[i] == byte(x>>(56-8*uint(i))))
+	}
+	vpAssert(ok, "BigEndian.PutUint64 summary")
+	o4 := make([]byte, 4)
+	binary.BigEndian.PutUint32(o4, uint32(x))
+	vpAssert(vpAnd(vpAnd(o4[0] == byte(x>>24), o4[1] == byte(x>>16)), vpAnd(o4[2] == byte(x>>8), o4[3] == byte(x))), "BigEndian.PutUint32 summary")
+	o2 := make([]byte, 2)
+	binary.BigEndian.PutUint16(o2, uint16(x))
+	vpAssert(vpAnd(o2[0] == byte(x>>8), o2[1] == byte(x)), "BigEndian.PutUint16 summary")
 }
